@@ -237,7 +237,7 @@ Definition done (t : task) : bool := match t_pc t with PDone => true | _ => fals
 Definition all_done (c : cfg) : bool := forallb done (c_tasks c).
 
 (* member of room [room] of namespace [ns] *)
-Definition mem (m : mgr) (ns : str) (room : pv) (sid : str) : bool :=
+Definition in_room (m : mgr) (ns : str) (room : pv) (sid : str) : bool :=
   match room_of m ns room with
   | Some b => match bd_get b sid with Some _ => true | None => false end
   | None => false
